@@ -5,4 +5,5 @@ CONSTANTS
   AsCoded = FALSE
   Crashes = TRUE
   Batched = FALSE
+  Recheck = TRUE
 INVARIANTS TypeOK InvLinked InvCountIsLength InvIndexExact InvById InvHeights InvRecords
